@@ -134,6 +134,7 @@ func checkC08(w *World, r *Report) {
 	r.NotDecided = "the history-level statement (which block is the first at or after an instant) beyond comparator polarity and dispatch structure; skipped blocks are covered by the ≤ comparison being re-evaluated at each block."
 	r.Rule("ST-TRANS", "status writes are constants and allowed transitions", 10)
 	r.Rule("TIME-POL", "time comparisons have the stated accept tables", 6)
+	r.Rule("TIME-REL", "an instalment is released exactly when due and not yet released", 1)
 	r.Rule("OPEN-GUARD", "bids are committed only while the auction is Started", 2)
 	r.Rule("FINISH-LAST", "finishing needs the last instalment", 1)
 	tm := NewTerms(w)
@@ -273,7 +274,7 @@ func checkC08(w *World, r *Report) {
 				}})
 		}
 	}
-	runGuard(w, r, tm, guardSpec{rule: "TIME-POL", id: "release:block-hook", root: bb, common: statusIs(stVesting),
+	runGuard(w, r, tm, guardSpec{rule: "TIME-REL", id: "release:block-hook", root: bb, common: statusIs(stVesting),
 		what: "on a Vesting auction a transfer is performed exactly for an instalment with ReleaseTime ≤ BlockTime that is not yet released",
 		commit: func(e *Effect, in ssa.Instruction) bool { return e.Kind == EffTransfer }, commitTxt: "the release transfer",
 		cases: relCases, atoms: []string{"pair0", "released"},
